@@ -260,6 +260,8 @@ impl Write for TestSink {
 #[derive(Clone, Debug, PartialEq, Eq, Hash, Serialize, Deserialize)]
 pub enum SOp {
     Write(Hex),
+    /// like io::Write::write_all, but a write returning Ok(0) ends the loop without an error
+    WriteAll(Hex),
     Flush,
     GetOutput,
     Finish,
@@ -485,6 +487,23 @@ impl StreamH {
                 let s = self.s.as_mut().expect("stream already finished");
                 let (v, n) = guard(|| s.write(&d.0));
                 (v, n.map(|x| x as u64))
+            }
+            SOp::WriteAll(d) => {
+                let s = self.s.as_mut().expect("stream already finished");
+                let mut off = 0usize;
+                let mut v = V::Ok;
+                while off < d.0.len() {
+                    let (vv, n) = guard(|| s.write(&d.0[off..]));
+                    match (vv, n) {
+                        (V::Ok, Some(0)) => break,
+                        (V::Ok, Some(n)) => off += n,
+                        (vv, _) => {
+                            v = vv;
+                            break;
+                        }
+                    }
+                }
+                (v, Some(off as u64))
             }
             SOp::Flush => {
                 let s = self.s.as_mut().expect("stream already finished");
@@ -797,7 +816,7 @@ fn run_case_inner(c: &Case) -> Obs {
                 }
                 let r = h.apply(op);
                 o.v = r.v.clone();
-                if let SOp::Write(_) = op {
+                if let SOp::Write(_) | SOp::WriteAll(_) = op {
                     o.consumed += r.n.unwrap_or(0) as usize;
                 }
                 o.ops.push(r);
